@@ -342,3 +342,99 @@ mod verif_body_c19 {
         assert!(false, "twin: must be reported as FAILURE");
     });
 }
+
+// ----------------------------------------------------------------------------------------- C03
+mod verif_body_c03 {
+    use super::*;
+    use crate::verif::{Fault, Script, Seg};
+    use std::io::BufReader;
+
+    /// parse_content_length on every field value of N bytes (any byte a HeaderValue can hold):
+    /// Ok(v) iff all bytes are ASCII digits and the number fits 64 bits; v is that number.
+    fn pcl_all<const N: usize>() {
+        let raw: [u8; N] = kani::any();
+        let hv = HeaderValue::from_bytes(&raw);
+        if let Ok(v) = &hv {
+            let r = parse_content_length(v);
+            let mut all_digits = N > 0;
+            let mut val: u64 = 0;
+            let mut overflow = false;
+            let mut i = 0;
+            while i < N {
+                if raw[i] >= b'0' && raw[i] <= b'9' {
+                    let d = (raw[i] - b'0') as u64;
+                    if val > (u64::MAX - d) / 10 {
+                        overflow = true;
+                    } else {
+                        val = val * 10 + d;
+                    }
+                } else {
+                    all_digits = false;
+                }
+                i += 1;
+            }
+            match &r {
+                Ok(x) => {
+                    assert!(all_digits, "C03: non-numeric Content-Length accepted");
+                    assert!(!overflow, "C03: Content-Length beyond 64 bits accepted");
+                    assert!(*x == val, "C03: Content-Length parsed to a wrong value");
+                }
+                Err(_) => assert!(!(all_digits && !overflow), "C03: valid Content-Length refused"),
+            }
+            kani::cover!(r.is_ok(), "must: some value accepted");
+            kani::cover!(r.is_err(), "must: some value refused");
+            std::mem::forget(r);
+        }
+        std::mem::forget(hv);
+    }
+    verif_harness!(c03_q_content_length_len1, 12, { pcl_all::<1>() });
+    verif_harness!(c03_q_content_length_len2, 12, { pcl_all::<2>() });
+    verif_harness!(c03_q_content_length_len3, 12, { pcl_all::<3>() });
+    verif_harness!(c03_t_content_length_len4, 12, { pcl_all::<4>() });
+
+    /// 19..21 digit values (all digits symbolic): exact value or refusal, never a wrapped number
+    fn pcl_long<const N: usize>() {
+        let digs: [u8; N] = kani::any();
+        let mut raw = [0u8; N];
+        let mut i = 0;
+        while i < N {
+            kani::assume(digs[i] < 10);
+            raw[i] = b'0' + digs[i];
+            i += 1;
+        }
+        let hv = HeaderValue::from_bytes(&raw).unwrap();
+        let r = parse_content_length(&hv);
+        let mut val: u64 = 0;
+        let mut overflow = false;
+        let mut i = 0;
+        while i < N {
+            let d = digs[i] as u64;
+            if val > (u64::MAX - d) / 10 {
+                overflow = true;
+            } else if !overflow {
+                val = val * 10 + d;
+            }
+            i += 1;
+        }
+        match &r {
+            Ok(x) => assert!(!overflow && *x == val, "C03: Content-Length beyond 64 bits accepted or wrapped"),
+            Err(_) => assert!(overflow, "C03: 64-bit Content-Length refused"),
+        }
+        kani::cover!(r.is_ok(), "must: accepted");
+        std::mem::forget(r);
+        std::mem::forget(hv);
+    }
+    verif_harness!(c03_q_content_length_20digits, 24, { pcl_long::<20>() });
+    verif_harness!(c03_t_content_length_21digits, 24, { pcl_long::<21>() });
+    verif_harness!(c03_t_content_length_19digits, 24, { pcl_long::<19>() });
+
+    verif_harness!(c03_qtwin_content_length, 12, {
+        pcl_all::<2>();
+        assert!(false, "twin: must be reported as FAILURE");
+    });
+
+    // NOTE: the framing decision table (BodyReader::new / is_chunked / is_content_length on header maps)
+    // is not decided: values read back out of a HeaderMap are not constant for CBMC's symbolic
+    // executor (heap-allocated entry table), `split(',')`/`trim`/`parse` on them unwind every loop to
+    // the bound; one concrete row (Transfer-Encoding: "gzip, CHUNKED") did not finish in 300 s.
+}
